@@ -1,6 +1,5 @@
 import PySMT.Core.FreeVars
 import PySMT.Core.Eval
-import PySMT.Impl.SubstBuild
 /-!
 # Specification of substitution (C05)
 
@@ -19,15 +18,23 @@ the walker code:
 * an application `f(a₁ … aₙ)` of an interpreted symbol `f(x₁ … xₙ) = body` becomes
   `body[x₁ ↦ a₁' … xₙ ↦ aₙ']` where `aᵢ'` are the results for the arguments.
 
-"The constructor of its operator" is `Build.rebuild` (the `FormulaManager` constructors are a
-separate component; C04/C06 are about them).
+This file imports nothing of the model (`PySMT/Impl`). "The constructor of its operator" is a
+**parameter** `mk : Op → Payload → List Term → Term` of the specification functions: substitution
+is specified *relative to the constructor layer* (the `FormulaManager` constructors are a separate
+component; C04/C06 are about them). The property theorems instantiate `mk` with the model
+`Build.rebuild` of those constructors, and say separately what `Build.rebuild` is: the plain node
+`Term.node op args p` on normal terms with unchanged children (`rebuild_self`), and in general the
+plain node over the new children up to the four documented normalisations (`Build.Shape`:
+`Not(Not x) = x`, `ToReal(c)`, `Div` by a constant, `Array(...)` through a `dict`).
 
 The semantic half of the property is stated with `Interp.updSyms` / `Interp.updFns` (the
 interpretation "updated with the values of the replacement terms") and the decidable proviso
 `NoCapture`.
 -/
 namespace PySMT.SubstSpec
-open PySMT.Build
+
+/-- the constructor layer: operator, payload of the node being replaced, new children ↦ term -/
+abbrev Mk := Op → Payload → List Term → Term
 
 abbrev TMap := List (Term × Term)
 
@@ -42,30 +49,30 @@ def below (σ : TMap) (vs : List Sym) : TMap :=
 abbrev App := Sym → List Term → Option Term
 
 /-- most general substitution -/
-def mgSpec (app : App) : TMap → Term → Term
+def mgSpec (mk : Mk) (app : App) : TMap → Term → Term
   | σ, .node op args p =>
     match find σ (.node op args p) with
     | some v => v
     | none =>
       match op, p with
-      | .forall_, .qvars vs => rebuild op p (args.map (mgSpec app (below σ vs)))
-      | .exists_, .qvars vs => rebuild op p (args.map (mgSpec app (below σ vs)))
+      | .forall_, .qvars vs => mk op p (args.map (mgSpec mk app (below σ vs)))
+      | .exists_, .qvars vs => mk op p (args.map (mgSpec mk app (below σ vs)))
       | .function, .sym f =>
-        let as := args.map (mgSpec app σ)
-        (app f as).getD (rebuild op p as)
-      | _, _ => rebuild op p (args.map (mgSpec app σ))
+        let as := args.map (mgSpec mk app σ)
+        (app f as).getD (mk op p as)
+      | _, _ => mk op p (args.map (mgSpec mk app σ))
 
 /-- most specific substitution -/
-def msSpec (app : App) : TMap → Term → Term
+def msSpec (mk : Mk) (app : App) : TMap → Term → Term
   | σ, .node op args p =>
     let r :=
       match op, p with
-      | .forall_, .qvars vs => rebuild op p (args.map (msSpec app (below σ vs)))
-      | .exists_, .qvars vs => rebuild op p (args.map (msSpec app (below σ vs)))
+      | .forall_, .qvars vs => mk op p (args.map (msSpec mk app (below σ vs)))
+      | .exists_, .qvars vs => mk op p (args.map (msSpec mk app (below σ vs)))
       | .function, .sym f =>
-        let as := args.map (msSpec app σ)
-        (app f as).getD (rebuild op p as)
-      | _, _ => rebuild op p (args.map (msSpec app σ))
+        let as := args.map (msSpec mk app σ)
+        (app f as).getD (mk op p as)
+      | _, _ => mk op p (args.map (msSpec mk app σ))
     (find σ r).getD r
 
 /-- a function interpretation `f(formals) = body` -/
@@ -73,13 +80,22 @@ structure Def where
   formals : List Sym
   body    : Term
 
-/-- `body[formals ↦ actuals]`; for a repeated formal parameter the last actual counts -/
-def instantiate (ms : Bool) (d : Def) (actuals : List Term) : Term :=
-  let σ := pyDict ((d.formals.map Term.sym).zip actuals)
-  if ms then msSpec (fun _ _ => none) σ d.body else mgSpec (fun _ _ => none) σ d.body
+/-- `d[k] = v` on an association list read as a dictionary: an existing key keeps its place and
+gets the new value, a new key goes to the end -/
+def upsert (k v : Term) : TMap → TMap
+  | [] => [(k, v)]
+  | (k', v') :: rest => if k' = k then (k', v) :: rest else (k', v') :: upsert k v rest
 
-def appOf (ms : Bool) (defs : List (Sym × Def)) : App :=
-  fun f as => ((defs.find? (fun fd => fd.1 == f)).map (·.2)).map (fun d => instantiate ms d as)
+/-- the dictionary of a list of pairs: for a repeated key the last value counts -/
+def dictOfPairs (ps : TMap) : TMap := ps.foldl (fun d kv => upsert kv.1 kv.2 d) []
+
+/-- `body[formals ↦ actuals]`; for a repeated formal parameter the last actual counts -/
+def instantiate (mk : Mk) (ms : Bool) (d : Def) (actuals : List Term) : Term :=
+  let σ := dictOfPairs ((d.formals.map Term.sym).zip actuals)
+  if ms then msSpec mk (fun _ _ => none) σ d.body else mgSpec mk (fun _ _ => none) σ d.body
+
+def appOf (mk : Mk) (ms : Bool) (defs : List (Sym × Def)) : App :=
+  fun f as => ((defs.find? (fun fd => fd.1 == f)).map (·.2)).map (fun d => instantiate mk ms d as)
 
 /-! ## the semantic statement -/
 
